@@ -328,6 +328,10 @@ def bfs_budget(cfg, depth, seed=0):
     W = cfg["window"]
     events = [("consume", 1), ("consume", 2), ("remaining",)] + \
              [("tick", d) for d in sorted({1, max(W - 1, 1), W, W + 1})]
+    if cfg.get("frac_tick"):
+        # an advance that is not a multiple of the tick nor of a millisecond: 0.4 ms short of the
+        # window (a token of that age is unambiguously still inside it)
+        events.append(("tick", W - 0.0032))
     seen = {}
     frontier = collections.deque([()])
     seen[((), frozenset())] = ()
